@@ -1,8 +1,324 @@
-//! Implementation runner for the `man` area: add the modes of this area to `dispatch`.
+//! Implementation runner for the `man` area (C19): build a `clap::Command` from the man spec of the
+//! case, render it with the real `clap_mangen::Man`, print the page as hex.
+//!
+//! Case: `(man <spec>)`; a spec is `(cmd item ...)`, see `build_cmd` for the items.  The harness also renders
+//! the spec's twin (`twin_of`: same tree, innocuous text) for the direct oracle.
+//! Result: `(page x<hex>) (det true|false) (twin x<hex>)`; `INVALID <msg>` when clap's debug assertions
+//! reject the command in `build` (not a valid command); a panic in clap_mangen is printed by main.rs as
+//! `PANIC <msg>`, a panic while rendering only the twin as `(twin PANIC)`.
+use crate::hex;
 use crate::sexp::Sx;
+use clap::builder::{PossibleValue, PossibleValuesParser};
+use clap::{Arg, ArgAction, Command};
+use std::panic::{catch_unwind, AssertUnwindSafe};
+
+fn s(x: &Sx) -> String {
+    String::from_utf8(x.bytes()).expect("spec strings are UTF-8")
+}
+fn ch(x: &Sx) -> char {
+    let t = s(x);
+    let mut it = t.chars();
+    let c = it.next().expect("short: one char");
+    assert!(it.next().is_none(), "short: one char");
+    c
+}
+
+fn build_pv(items: &[Sx]) -> PossibleValue {
+    let mut name = String::new();
+    let mut help = None;
+    let mut hide = false;
+    for it in items {
+        let l = it.args();
+        match it.head() {
+            "name" => name = s(&l[0]),
+            "help" => help = Some(s(&l[0])),
+            "hide" => hide = true,
+            h => panic!("harness: unknown pv item {h}"),
+        }
+    }
+    let mut pv = PossibleValue::new(name).hide(hide);
+    if let Some(h) = help {
+        pv = pv.help(h);
+    }
+    pv
+}
+
+fn build_arg(items: &[Sx]) -> Arg {
+    let mut id = String::new();
+    for it in items {
+        if it.head() == "id" {
+            id = s(&it.args()[0]);
+        }
+    }
+    let mut a = Arg::new(id);
+    let mut pvs: Vec<PossibleValue> = vec![];
+    for it in items {
+        let l = it.args();
+        a = match it.head() {
+            "id" => a,
+            "short" => a.short(ch(&l[0])),
+            "long" => a.long(s(&l[0])),
+            "action" => a.action(match l[0].sym() {
+                "set" => ArgAction::Set,
+                "append" => ArgAction::Append,
+                "settrue" => ArgAction::SetTrue,
+                "setfalse" => ArgAction::SetFalse,
+                "count" => ArgAction::Count,
+                k => panic!("harness: unknown action {k}"),
+            }),
+            "num-args" => {
+                let lo = l[0].num() as usize;
+                if l[1].sym() == "max" {
+                    a.num_args(lo..)
+                } else {
+                    a.num_args(lo..=(l[1].num() as usize))
+                }
+            }
+            "value-names" => a.value_names(l.iter().map(s).collect::<Vec<_>>()),
+            "help" => a.help(s(&l[0])),
+            "long-help" => a.long_help(s(&l[0])),
+            "hide" => a.hide(true),
+            "hide-short-help" => a.hide_short_help(true),
+            "hide-long-help" => a.hide_long_help(true),
+            "hide-env" => a.hide_env(true),
+            "hide-default" => a.hide_default_value(true),
+            "hide-pvs" => a.hide_possible_values(true),
+            "required" => a.required(true),
+            "defaults" => a.default_values(l.iter().map(s).collect::<Vec<_>>()),
+            "env" => a.env(s(&l[0])),
+            "pv" => {
+                pvs.push(build_pv(l));
+                a
+            }
+            "heading" => a.help_heading(s(&l[0])),
+            h => panic!("harness: unknown arg item {h}"),
+        };
+    }
+    if !pvs.is_empty() {
+        a = a.value_parser(PossibleValuesParser::new(pvs));
+    }
+    a
+}
+
+fn build_sub(items: &[Sx]) -> Command {
+    let mut name = String::new();
+    for it in items {
+        if it.head() == "name" {
+            name = s(&it.args()[0]);
+        }
+    }
+    let mut c = Command::new(name);
+    for it in items {
+        let l = it.args();
+        c = match it.head() {
+            "name" => c,
+            "about" => c.about(s(&l[0])),
+            "long-about" => c.long_about(s(&l[0])),
+            "hide" => c.hide(true),
+            h => panic!("harness: unknown sub item {h}"),
+        };
+    }
+    c
+}
+
+#[derive(Default)]
+struct ManOpts {
+    title: Option<String>,
+    section: Option<String>,
+    date: Option<String>,
+    source: Option<String>,
+    manual: Option<String>,
+}
+
+fn build_cmd(items: &[Sx]) -> (Command, ManOpts) {
+    let mut name = String::new();
+    for it in items {
+        if it.head() == "name" {
+            name = s(&it.args()[0]);
+        }
+    }
+    let mut c = Command::new(name);
+    let mut m = ManOpts::default();
+    for it in items {
+        let l = it.args();
+        c = match it.head() {
+            "name" => c,
+            "display-name" => c.display_name(s(&l[0])),
+            "bin-name" => c.bin_name(s(&l[0])),
+            "version" => c.version(s(&l[0])),
+            "long-version" => c.long_version(s(&l[0])),
+            "author" => c.author(s(&l[0])),
+            "about" => c.about(s(&l[0])),
+            "long-about" => c.long_about(s(&l[0])),
+            "after-help" => c.after_help(s(&l[0])),
+            "after-long-help" => c.after_long_help(s(&l[0])),
+            "before-long-help" => c.before_long_help(s(&l[0])),
+            "sub-heading" => c.subcommand_help_heading(s(&l[0])),
+            "sub-value-name" => c.subcommand_value_name(s(&l[0])),
+            "sub-required" => c.subcommand_required(true),
+            "no-help-flag" => c.disable_help_flag(true),
+            "no-version-flag" => c.disable_version_flag(true),
+            "no-help-sub" => c.disable_help_subcommand(true),
+            "arg" => c.arg(build_arg(l)),
+            "sub" => c.subcommand(build_sub(l)),
+            "m-title" => {
+                m.title = Some(s(&l[0]));
+                c
+            }
+            "m-section" => {
+                m.section = Some(s(&l[0]));
+                c
+            }
+            "m-date" => {
+                m.date = Some(s(&l[0]));
+                c
+            }
+            "m-source" => {
+                m.source = Some(s(&l[0]));
+                c
+            }
+            "m-manual" => {
+                m.manual = Some(s(&l[0]));
+                c
+            }
+            h => panic!("harness: unknown cmd item {h}"),
+        };
+    }
+    (c, m)
+}
+
+/// `Err(msg)`: the spec is not a valid command (clap's own debug assertions reject it in `build`).
+fn render(spec: &Sx) -> Result<Vec<u8>, String> {
+    let (cmd, m) = build_cmd(spec.args());
+    let mut probe = cmd.clone();
+    if let Err(p) = catch_unwind(AssertUnwindSafe(move || probe.build())) {
+        let msg = if let Some(s) = p.downcast_ref::<&str>() {
+            s.to_string()
+        } else if let Some(s) = p.downcast_ref::<String>() {
+            s.clone()
+        } else {
+            "?".to_string()
+        };
+        return Err(msg.replace(['\n', '\t'], " "));
+    }
+    let mut man = clap_mangen::Man::new(cmd);
+    if let Some(t) = m.title {
+        man = man.title(t);
+    }
+    if let Some(t) = m.section {
+        man = man.section(t);
+    }
+    if let Some(t) = m.date {
+        man = man.date(t);
+    }
+    if let Some(t) = m.source {
+        man = man.source(t);
+    }
+    if let Some(t) = m.manual {
+        man = man.manual(t);
+    }
+    let mut buf: Vec<u8> = vec![];
+    man.render(&mut buf).expect("writing to a Vec");
+    Ok(buf)
+}
+
+const FREE_TEXT: [&str; 8] = [
+    "about", "long-about", "after-help", "after-long-help", "before-long-help", "help", "long-help", "author",
+];
+const SAFE_SHORTS: &str = "abcdefgijklmnopqrstuvwxyzABCDEFGHIJKLMNOPQRSTUWXYZ0123456789";
+
+/// The same tree with innocuous text in every slot (used by the direct oracle): free text keeps its
+/// number of lines and which of them are empty / blank, every other line becomes `xx`; name-like strings
+/// are replaced consistently (`n<k>x`: equal strings stay equal, distinct ones distinct, empty stays
+/// empty); shorts become safe letters.
+fn twin_of(v: &Sx, names: &mut Vec<Vec<u8>>, shorts: &mut Vec<Vec<u8>>) -> Sx {
+    let l = match v {
+        Sx::List(l) if !l.is_empty() => l,
+        _ => return v.clone(),
+    };
+    let head = v.head();
+    let mut out = vec![l[0].clone()];
+    match head {
+        "cmd" | "arg" | "sub" | "pv" => {
+            for x in &l[1..] {
+                out.push(twin_of(x, names, shorts));
+            }
+        }
+        "action" | "num-args" => return v.clone(),
+        "short" => {
+            for x in &l[1..] {
+                let b = x.bytes();
+                let k = match shorts.iter().position(|y| *y == b) {
+                    Some(k) => k,
+                    None => {
+                        shorts.push(b);
+                        shorts.len() - 1
+                    }
+                };
+                let c = SAFE_SHORTS.as_bytes()[k % SAFE_SHORTS.len()];
+                out.push(Sx::Bytes(vec![c]));
+            }
+        }
+        h if FREE_TEXT.contains(&h) => {
+            for x in &l[1..] {
+                let t = s(x);
+                let parts: Vec<&str> = t.split('\n').collect();
+                let inn: Vec<&str> = parts
+                    .iter()
+                    .map(|p| if p.is_empty() { "" } else if p.trim().is_empty() { " " } else { "xx" })
+                    .collect();
+                out.push(Sx::Bytes(inn.join("\n").into_bytes()));
+            }
+        }
+        _ => {
+            for x in &l[1..] {
+                let b = x.bytes();
+                if b.is_empty() {
+                    out.push(Sx::Bytes(vec![]));
+                    continue;
+                }
+                let k = match names.iter().position(|y| *y == b) {
+                    Some(k) => k,
+                    None => {
+                        names.push(b);
+                        names.len() - 1
+                    }
+                };
+                out.push(Sx::Bytes(format!("n{k}x").into_bytes()));
+            }
+        }
+    }
+    Sx::List(out)
+}
+
+fn man(args: &[Sx]) -> String {
+    if args.is_empty() || args[0].head() != "cmd" {
+        return "BADCASE".into();
+    }
+    // a malformed spec (e.g. produced by the shrinker: an item without its argument) is not a case
+    if catch_unwind(AssertUnwindSafe(|| build_cmd(args[0].args()))).is_err() {
+        return "BADCASE".into();
+    }
+    let page = match render(&args[0]) {
+        Ok(p) => p,
+        Err(msg) => return format!("INVALID {msg}"),
+    };
+    // determinism: a second, independent build + render of the same spec
+    let again = render(&args[0]).unwrap_or_default();
+    let mut out = format!("(page {}) (det {})", hex(&page), page == again);
+    let twin = twin_of(&args[0], &mut vec![], &mut vec![]);
+    match catch_unwind(AssertUnwindSafe(|| render(&twin))) {
+        Ok(Ok(t)) => out.push_str(&format!(" (twin {})", hex(&t))),
+        Ok(Err(_)) => out.push_str(" (twin INVALID)"),
+        Err(_) => out.push_str(" (twin PANIC)"),
+    }
+    out
+}
 
 /// Returns `Some(result)` when `head` is a mode of this area.
 pub fn dispatch(head: &str, args: &[Sx]) -> Option<String> {
-    let _ = (head, args);
-    None
+    match head {
+        "man" => Some(man(args)),
+        _ => None,
+    }
 }
